@@ -27,6 +27,8 @@ import (
 //   AD <conn> <hex> ...   decision, and when it is "deny" the command is run as well ("Z ...", "R ...")
 //   AU                    digest of the ACL and of the registered connections
 //   AB                    digest of the pub/sub state
+//   Q                     release the parked cache-update goroutines in order, wait for them (config park=1 gap=<ms>)
+//   K                     dump of the eviction caches
 //   A <ms>                advance the virtual clock
 //   W <db>                one synchronous round of the expiry sampler
 //   G                     digest
@@ -37,6 +39,7 @@ type inst struct {
 	db    *sugardb.SugarDB
 	clk   *sugardb.VerifClock
 	conns map[int]*net.Conn
+	gap   time.Duration
 }
 
 func unhex(s string) string {
@@ -65,6 +68,7 @@ func newInst(args []string) *inst {
 	conf.EvictionInterval = 1000 * time.Hour
 	conf.SnapshotInterval = 1000 * time.Hour
 	now := int64(1700000000000)
+	park, gap := false, time.Duration(0)
 	for _, kv := range args {
 		p := strings.SplitN(kv, "=", 2)
 		if len(p) != 2 {
@@ -73,6 +77,11 @@ func newInst(args []string) *inst {
 		switch p[0] {
 		case "now":
 			now, _ = strconv.ParseInt(p[1], 10, 64)
+		case "park":
+			park = p[1] == "1"
+		case "gap":
+			m, _ := strconv.ParseInt(p[1], 10, 64)
+			gap = time.Duration(m) * time.Millisecond
 		case "policy":
 			conf.EvictionPolicy = p[1]
 		case "maxmem":
@@ -105,7 +114,10 @@ func newInst(args []string) *inst {
 	if err != nil {
 		panic(err)
 	}
-	return &inst{db: db, clk: clk, conns: map[int]*net.Conn{}}
+	if park {
+		db.VerifCachePark(true, gap)
+	}
+	return &inst{db: db, clk: clk, conns: map[int]*net.Conn{}, gap: gap}
 }
 
 func (in *inst) conn(id int) *net.Conn {
@@ -248,6 +260,17 @@ func main() {
 					parts = append(parts, strings.Join(toks, ","))
 				}
 				fmt.Fprintf(out, "B %s\n", strings.Join(parts, "|"))
+				out.Flush()
+			case "Q":
+				if in.db.VerifCacheQuiesce(5 * time.Second) {
+					fmt.Fprintf(out, "Q ok\n")
+				} else {
+					fmt.Fprintf(out, "Q HUNG\n")
+				}
+				out.Flush()
+				time.Sleep(in.gap)
+			case "K":
+				fmt.Fprintf(out, "K %s\n", in.db.VerifCacheDump())
 				out.Flush()
 			case "E":
 				fmt.Fprintf(out, "E\n")
